@@ -53,10 +53,11 @@ LEAVES = ("26", "27", "ext", "tw", "tt", "tbt")
 DETAILS = ("ext", "tt")          # flavours with the details protocol
 METHOD = {"success": "addSuccess", "error": "addError", "failure": "addFailure", "skip": "addSkip",
           "xfail": "addExpectedFailure", "uxsuccess": "addUnexpectedSuccess"}
-FORMS = {"success": ("plain", "d1"), "uxsuccess": ("plain", "d1"), "error": ("plain", "d1", "d2"),
-         "failure": ("plain", "d1", "d2"), "xfail": ("plain", "d1", "d2"), "skip": ("plain", "dr", "d1", "d2", "drl")}
+FORMS = {"success": ("plain", "d1"), "uxsuccess": ("plain", "d1"), "error": ("plain", "d1", "d2", "d3"),
+         "failure": ("plain", "d1", "d2", "d3"), "xfail": ("plain", "d1", "d2", "d3"), "skip": ("plain", "dr", "d1", "d2", "drl")}
 VARIANTS = [(k, f) for k in METHOD for f in FORMS[k]]
-DETAIL_KEYS = {"d1": ("log",), "d2": ("traceback", "log"), "dr": ("reason",), "drl": ("reason", "log")}
+# d3: what testtools itself produces when the test body fails and a cleanup fails too (traceback, traceback-1)
+DETAIL_KEYS = {"d1": ("log",), "d2": ("traceback", "log"), "d3": ("traceback", "traceback-1", "log"), "dr": ("reason",), "drl": ("reason", "log")}
 TEST_KINDS = ("case", "ucase", "placeholder", "errorholder")
 AUX = ("startTestRun", "stopTestRun", "tags", "time", "progress", "stop", "done")
 T0 = datetime.datetime(2000, 1, 1, tzinfo=datetime.timezone.utc)
